@@ -49,7 +49,7 @@ pub async fn bootstrap(s: &mut Sim, rng: &mut Rng) -> G {
         RdSetting::DebtAccountant(g.debt_acc.clone()), RdSetting::RewardsAccountant(g.rew_acc.clone()), RdSetting::ContributorManager(g.cmgr.clone()),
         RdSetting::SwapProgram(K::SwapMock), RdSetting::FeeParams(500, 0, 100, 0, rng.below(3) as u32), RdSetting::CalcGrace(g.calc_grace as u16),
         RdSetting::InitGrace(g.init_grace as u16), RdSetting::BurnRate(cbr_lim, rng.range(1, 3) as u32, rng.range(3, 6) as u32, Some(cbr_init)),
-        RdSetting::RelayLamports(*rng.pick(&[5001u32, 10_000, 100_000])), RdSetting::MinEpochs(g.min_epochs as u8),
+        RdSetting::RelayLamports(*rng.pick(&[5001u32, 10_000, 100_000, 3_000_000_000, u32::MAX])), RdSetting::MinEpochs(g.min_epochs as u8),
         RdSetting::FeatureActivation(rng.range(1, 2)), RdSetting::Paused(false) ];
     for st in settings {
         if rng.chance(1, 40) { continue; }   // sometimes leave a parameter unconfigured
@@ -309,6 +309,13 @@ async fn go(s: &mut Sim, rng: &mut Rng, g: &mut G, ix: crate::sim::Ix) -> bool {
 
 /// one honest step that the tracked state says is enabled (the bank decides; the tracking is only used to aim)
 async fn driver_step(s: &mut Sim, rng: &mut Rng, g: &mut G) -> bool {
+    if rng.chance(1, 10) { // valid reconfiguration of a parameter that existing distributions have snapshotted
+        let st = match rng.below(4) { 0 => RdSetting::RelayLamports(*rng.pick(&[5001u32, 6_000, 50_000, 2_500_000_000])),
+                                      1 => RdSetting::FeeParams(rng.below(10_001) as u16, 1, 2, 3, rng.below(9) as u32),
+                                      2 => { let m = rng.range(1, 3); g.calc_grace = m; RdSetting::CalcGrace(m as u16) }
+                                      _ => { let m = rng.range(1, 2); g.min_epochs = m; RdSetting::MinEpochs(m as u8) } };
+        let ix = s.rd_configure(&g.admin, st); s.op(tx(vec![ix])).await;
+    }
     if g.paused { let ix = s.rd_configure(&g.admin, RdSetting::Paused(false)); if go(s, rng, g, ix).await { g.paused = false; } return true; }
     let ne = g.eps.len();
     if ne == 0 || (ne < 3 && rng.chance(1, 6)) {
